@@ -11,7 +11,7 @@ package attachment
 //@ spec covered(p *Package, b uint32) bool = existsint(k, has(p.OffsetRecord, k) && k <= int(b) && int(b) < k + p.OffsetRecord[k])
 
 //@ func (*Package).StatisticalMissSegments
-//@   requires C16.dom: chunksok(p)
+//@   domain C16.dom: chunksok(p)
 //@   ensures C16.complete: p.CurrentSize == p.FileSize ==> result == nil
 //@   ensures C16.positive: forall(q, 0, len(result), result[q].DataLength > 0)
 //@   ensures C16.inside: forall(q, 0, len(result), int(result[q].DataOffset) + int(result[q].DataLength) <= int(p.FileSize))
@@ -67,6 +67,10 @@ package attachment
 //@ func (*standardJT808DataHandle).OnPackageProgressEvent
 //@   requires C10.progress: progress != nil && progress.Record != nil
 //@   requires C10.records: forallkey(k, progress.Record, progress.Record[k] != nil)
+// 0x1212 for a known file: the reply's range list is recomputed every time - empty exactly when the file is complete
+// (a list left over from an earlier completion would make a complete file look incomplete)
+//@   ensures C16.fresh: s.Command == 0x1212 && has(progress.Record, s.T0x1212.T0x1211.FileName) && progress.Record[s.T0x1212.T0x1211.FileName].CurrentSize == progress.Record[s.T0x1212.T0x1211.FileName].FileSize ==> len(s.T0x1212.P0x9212RetransmitPacketList) == 0
+//@   ensures C16.stage: s.Command == 0x1212 && has(progress.Record, s.T0x1212.T0x1211.FileName) ==> iff(progress.ProgressStage == ProgressStageSupplementary, len(s.T0x1212.P0x9212RetransmitPacketList) > 0)
 
 // Chunk headers: callers check HasMinHeadLen first (PackageProgress.stageStreamData)
 
